@@ -208,4 +208,83 @@ def c01(res, tier, seed):
 c09k = simple(C09_PLAIN, C09_TEXT, PAYLOAD_FN + ["parsers::message_type"], {"payload": "spec length per type, all bits symbolic incl. the type bits", "unwind": 6},
               "Kani/CBMC leaves of C09", [])
 
-CHECKS = {"C03": c03, "C04": c04, "C10": c10, "C11": c11, "C12": c12, "C16": c16, "C14": c14, "C01": c01, "C13": c13, "C15": c15, "C09": c09k}
+M_TRUSTED = ["own MIR->SMT encoder (lib/mir): parser for rustc's textual MIR, path-enumerating symbolic executor; fails closed on any construct or callee outside its subset",
+             "summary table lib/mir/summaries.py (Try::branch, from_residual, Option<u8>::ne, Vec default/extend_from_slice/deref, heapless extend_from_slice capacity rule, mem::swap, map_err, ...)",
+             "layer cuts: parse_nmea_sentence = any accepted sentence with non-empty payload and fill < 6, or a rejection; unarmor / messages::parse = uninterpreted functions of (payload, fill); XOR fold = one symbolic byte",
+             "z3 4.8.12 (sequence theory for payload concatenation); nightly rustc MIR (-Zunpretty=mir, overflow-checks=on)"]
+M_FUNCS = ["AisParser::parse", "AisParser::verify_and_extend_data", "AisParser::check_checksum (minus the fold)", "AisSentence::has_more", "AisSentence::is_fragment"]
+
+
+def m_setup(res, cfgs, seed):
+    import msq
+    ql = msq.QueryLog()
+    rels = {}
+    for c in cfgs:
+        try:
+            rels[c] = msq.relation(c)
+        except Exception as e:   # Unsupported MIR / dump failure: inconclusive, never a pass
+            res.inconclusive.append("engine M could not encode AisParser::parse [%s]: %s" % (c, e))
+            continue
+        msq.relation_evidence(res, rels[c])
+        msq.sanity_paths_exhaustive(res, rels[c], ql)
+        msq.translator_validation(res, rels[c], ql, seed)
+    return msq, ql, rels
+
+
+def m_meta(tier, extra_bounds=None):
+    b = {"one_step_queries": "arbitrary parser state (any id, any number, payload of any length), arbitrary accepted sentence / rejected line",
+         "bmc": "histories from a fresh parser, payload <= 2 bytes per fragment (replayable witnesses only)"}
+    b.update(extra_bounds or {})
+    return {"functions_encoded": M_FUNCS, "bounds": b, "technique": "symbolic execution of the MIR of AisParser::parse into a transition relation; z3 queries (inductive one-step + bounded histories); every model replayed on the real library",
+            "trusted": M_TRUSTED}
+
+
+def c05(res, tier, seed):
+    msq, ql, rels = m_setup(res, ("std", "none") if tier == "quick" else ALL, seed)
+    for c, rel in rels.items():
+        msq.q_reassembly(res, rel, ql)
+        msq.q_no_trace(res, rel, ql, k_bmc=3 if tier == "quick" else 4)
+        msq.q_from_impls(res, rel, ql)
+    res.assumptions += ["fragment counts: the inductive step covers every k -> k+1 for k < 255, hence n = 2..9 and beyond",
+                        "'equals the unfragmented decode': the same uninterpreted unarmor/parse terms (layer P is verified by C03/C04/C09-C16)",
+                        "interleaved rejected lines / unfragmented sentences: state unchanged (the C17 one-step query, re-run here)",
+                        "no-alloc: within the 384-byte reassembly capacity"]
+    return m_meta(tier)
+
+
+def c06(res, tier, seed):
+    msq, ql, rels = m_setup(res, ("std", "none") if tier == "quick" else ALL, seed)
+    for c, rel in rels.items():
+        ok = msq.q_only_groups(res, rel, ql, k_bmc=4 if tier == "quick" else 6)
+        r = msq.q_only_groups_inductive(res, rel, ql)
+        if ok and r != "unsat":
+            res.inconclusive.append("C06 [%s]: bounded histories hold but the group invariant is not inductive on this code (%s) - unbounded claim not established" % (c, r))
+    res.assumptions += ["validly numbered sentences (1 <= k <= n) as the property states; rejected lines arbitrary",
+                        "bounded part: histories of <= %d lines from a fresh parser, payloads <= 2 bytes, decode off and decode on with undecodable payloads" % (4 if tier == "quick" else 6),
+                        "unbounded part: invariant 'open => state = (id, last, concat); closed => state = (None, 0, _)' preserved by every step"]
+    return m_meta(tier)
+
+
+def c17(res, tier, seed):
+    msq, ql, rels = m_setup(res, ("std", "none") if tier == "quick" else ALL, seed)
+    for c, rel in rels.items():
+        msq.q_no_trace(res, rel, ql, k_bmc=3 if tier == "quick" else 5)
+    # parser instances are independent: parse touches only *self, its arguments and locals
+    import re as _re, os as _os
+    from common import REPO
+    hits = []
+    for root, _, files in _os.walk(_os.path.join(REPO, "src")):
+        for f in files:
+            if f.endswith(".rs"):
+                t = open(_os.path.join(root, f)).read()
+                for m in _re.finditer(r"static\s+mut|thread_local!|\bCell<|RefCell<|Atomic[A-Z]|lazy_static|OnceCell|OnceLock|Mutex<", t):
+                    hits.append("%s: %s" % (f, m.group(0)))
+    res.extra["global_state_scan"] = hits
+    if hits:
+        res.inconclusive.append("crate contains global / interior-mutable state (%s): parser-instance independence not established by the encoder" % hits[:3])
+    res.assumptions += ["'rejected' = by form (layer T), checksum, fragment sequencing or (no-alloc) capacity; a group's last fragment whose payload does not decode is not in C17's list",
+                        "instance independence: the encoded MIR reads/writes only *self, arguments and locals (the executor has no global places and fails closed on statics); source scan for static mut / interior mutability: %s" % (hits or "none")]
+    return m_meta(tier)
+
+
+CHECKS = {"C03": c03, "C04": c04, "C10": c10, "C11": c11, "C12": c12, "C16": c16, "C14": c14, "C05": c05, "C06": c06, "C17": c17, "C01": c01, "C13": c13, "C15": c15, "C09": c09k}
